@@ -100,9 +100,12 @@ where
             // indexing is safe because len is guaranteed to be 1 from the constructor.
             let field = &named.named[0];
             // Unwrapping the ident is also safe because a named field always has an ident.
-            let capture = field.ident.as_ref().unwrap();
-            let variant = quote! { #ident{#capture} };
-            T::flattened(variant, capture)
+            let field_name = field.ident.as_ref().unwrap();
+            // Bind the field under a fixed name: a field called `s` would otherwise shadow the
+            // writer parameter `s` of the generated `unquoted`.
+            let capture: Ident = Delegated.into();
+            let variant = quote! { #ident{#field_name: #capture} };
+            T::flattened(variant, &capture)
         } else {
             let variant = quote! { #ident{..} };
             self.write_variant_name(variant)
